@@ -50,6 +50,24 @@
 (* ids: 0 = 0 would make an unauthenticated connection "the listen client" of a noListen        *)
 (* mapping - what stops it is the client-id check at the top of HandleTunnelOpen (MUT =          *)
 (* {"authLast"} models a tree where that check only guards the no-credentials branch).          *)
+(* Mapping state "expiredJust": ExpiresAt a fraction of a second in the past (the boundary of   *)
+(* IsExpired; "expired" is an hour in the past).                                                 *)
+(*                                                                                              *)
+(* Store vs. administration.  `adm` is what was done to mapping M (revoked, expired, ...: the    *)
+(* property's predicate reads it), `mst` is what the mapping store holds (the validation reads   *)
+(* it).  They differ only through a stale write-back: an admitted mapping-id request calls       *)
+(* conncode.RecordMappingUsage = read the record, set LastActive, write the WHOLE record back.   *)
+(* Orders "slowUsage" / "inflightUsage" hold that write (slow store) while the mapping is        *)
+(* changed: slowUsage changes the mapping after the open was ACKNOWLEDGED - in the tree the      *)
+(* write is part of HandleTunnelOpen and has landed by then (MUT "usageAsync": it runs in the    *)
+(* background and lands later, resurrecting the record); inflightUsage changes it while the      *)
+(* open is still between its read and its write (reachable in the tree as well: show cfg).       *)
+(*                                                                                              *)
+(* Tunnel state "prefixRemote": two tunnels whose ids share their first 16 bytes - T (<= 16      *)
+(* bytes, mapping M, source S) and T+ (T plus a suffix, mapping M2, opened as source by the      *)
+(* stranger's own client P) - both waiting on node A; the request names T+ and arrives on node   *)
+(* B.  The cross-node frame header carries 16 bytes of the id, the TargetReady payload the full  *)
+(* id; the source node must resolve the bridge by the FULL id (MUT "headerFirst": header first). *)
 (* Credential "otherSecret": id + secret of a third mapping M3 whose TARGET client is the        *)
 (* stranger - valid credentials that pass the validation and do not make the presenter a source. *)
 EXTENDS Naturals, Sequences, FiniteSets, TLC, Json
@@ -57,21 +75,24 @@ EXTENDS Naturals, Sequences, FiniteSets, TLC, Json
 CONSTANTS FIXES,     \* see above
           Idents,    \* subset of {"none", "noneHs", "listen", "target", "stranger"}
           Creds,     \* subset of {"idOnly", "rightSecret", "wrongSecret", "resume", "nothing", "otherId", "otherSecret"}
-          MStates,   \* subset of {"active", "revoked", "expired", "inactive", "error", "suspended", "missing"}
+          MStates,   \* subset of {"active", "revoked", "expired", "expiredJust", "inactive", "error", "suspended", "missing"}
           Shapes,    \* subset of {"std", "noListen", "noTarget"} (non-std: tunnel state "none" only)
-          MUT,       \* seeded deviations the model can express ({} = the tree): "authLast"
-          TStates,   \* subset of {"none", "waiting", "served", "remote", "lateLocal", "lateRemote"}
-          Orders,    \* subset of {"legitFirst", "reqFirst"}
+          MUT,       \* seeded deviations the model can express ({} = the tree): "authLast", "usageAsync", "headerFirst"
+          TStates,   \* subset of {"none", "waiting", "served", "remote", "lateLocal", "lateRemote", "prefixRemote"}
+          Orders,    \* subset of {"legitFirst", "reqFirst", "slowUsage", "inflightUsage"}
           Masked,    \* BOOLEAN: invariants hold "or a named deviation fired" (as-found tree)
           Emit       \* BOOLEAN: print one behaviour per cell
 
 None == "-"
-Who  == {"S", "T", "R"}
+Who  == {"S", "T", "R", "P"}     \* P: the stranger's own client, source of the prefix-related tunnel T+
 
 VARIABLES cell,   \* the cell of the product this behaviour runs
           pc,     \* index of the next script step
-          mst,    \* state of mapping M now
-          br,     \* the bridge of the tunnel id: [node, map, src, tgt, live, xn]
+          mst,    \* state of mapping M in the mapping store (what the validation reads)
+          adm,    \* state of mapping M as administered (what was done to it: the property reads this)
+          uw,     \* stale copy a pending RecordMappingUsage write-back will store (None: nothing pending)
+          br,     \* the bridge of tunnel id T: [node, map, src, tgt, live, xn]
+          br2,    \* the bridge of tunnel id T+ (same first 16 bytes; tunnel state prefixRemote only)
           ack,    \* who -> "none" | "ok" | "fail"      (TunnelOpenAck received)
           att,    \* who -> "none" | "src" | "tgt" | "fwd"  (attachment of the connection)
           got,    \* who -> BOOLEAN  (a marker written by another attached end was readable)
@@ -80,8 +101,9 @@ VARIABLES cell,   \* the cell of the product this behaviour runs
           dev,    \* ghost: named deviations that fired
           poll,   \* connection waiting in lookupTunnelRouting (None: nobody)
           hist    \* the steps taken (behaviour handed to the driver)
-vars == <<cell, pc, mst, br, ack, att, got, ent, opened, dev, poll, hist>>
+vars == <<cell, pc, mst, adm, uw, br, br2, ack, att, got, ent, opened, dev, poll, hist>>
 Late == {"lateLocal", "lateRemote"}
+UsageOrders == {"slowUsage", "inflightUsage"}
 
 NoBridge == [node |-> None, map |-> None, src |-> None, tgt |-> None, live |-> None, xn |-> None]
 
@@ -90,6 +112,11 @@ NoBridge == [node |-> None, map |-> None, src |-> None, tgt |-> None, live |-> N
 Prof(w) == CASE w = "S" -> [id |-> "listen", cred |-> "idOnly"]
              [] w = "T" -> [id |-> "target", cred |-> "rightSecret"]
              [] w = "R" -> [id |-> cell.id, cred |-> cell.cred]
+             [] w = "P" -> [id |-> "stranger", cred |-> "otherId"]
+
+\* tunnel id a connection names, and the bridge registered under it
+Tid(w) == IF cell.ts = "prefixRemote" /\ w \in {"P", "R"} THEN "T+" ELSE "T"
+Bof(w) == IF Tid(w) = "T" THEN br ELSE br2
 
 \* mapping named in the request ("nothing" carries the tunnel id only)
 Pres(p) == IF p.cred = "otherId" THEN "M2" ELSE IF p.cred = "otherSecret" THEN "M3"
@@ -126,7 +153,7 @@ Validate(p) ==
 \* the identities "listen" / "target" are M's parties only if M has such a party
 ListenOf(p) == p.id = "listen" /\ cell.shape # "noListen"
 TargetOf(p) == p.id = "target" /\ cell.shape # "noTarget"
-EntM(p) == /\ Authd(p.id) /\ mst = "active"
+EntM(p) == /\ Authd(p.id) /\ adm = "active"
            /\ \/ ListenOf(p) /\ p.cred \in {"idOnly", "rightSecret", "wrongSecret", "resume"}  \* presents the mapping id
               \/ (ListenOf(p) \/ TargetOf(p)) /\ p.cred = "rightSecret"                        \* presents the secret
 Entitled(p, tm) == IF p.cred = "otherId" THEN p.id = "stranger" /\ tm \in {None, "M2"}
@@ -137,13 +164,16 @@ Entitled(p, tm) == IF p.cred = "otherId" THEN p.id = "stranger" /\ tm \in {None,
 \* the script of a cell
 OpenStep(w, n) == [op |-> "Open", who |-> w, node |-> n]
 Script(c) ==
-  LET rn    == IF c.ts \in {"remote", "lateRemote"} THEN "B" ELSE "A"
+  LET rn    == IF c.ts \in {"remote", "lateRemote", "prefixRemote"} THEN "B" ELSE "A"
       build == CASE c.ts = "none"    -> <<>>
+                 [] c.ts = "prefixRemote" -> <<OpenStep("S", "A"), OpenStep("P", "A")>>
                  [] c.ts \in Late    -> <<OpenStep("S", "A"), [op |-> "Resolve", who |-> "R"]>>
                  [] c.ts = "waiting" -> <<OpenStep("S", "A")>>
                  [] c.ts = "remote"  -> <<OpenStep("S", "A")>>
                  [] c.ts = "served"  -> <<OpenStep("S", "A"), OpenStep("T", "A")>>
-  IN IF c.ord = "legitFirst"
+  IN IF c.ord \in UsageOrders
+       THEN build \o <<[op |-> "SetMap"], [op |-> "UsageLand"], OpenStep("R", rn), [op |-> "Marker"]>>
+     ELSE IF c.ord = "legitFirst"
        THEN build \o <<[op |-> "SetMap"], OpenStep("R", rn), [op |-> "Marker"]>>
        ELSE <<[op |-> "SetMap"], OpenStep("R", rn)>> \o build \o <<[op |-> "Marker"]>>
 
@@ -157,32 +187,44 @@ Running == pc <= Len(Script(cell))
 Init == /\ cell \in [id : Idents, cred : Creds, ms : MStates, ts : TStates, ord : Orders, shape : Shapes]
         /\ cell.ts \in Late => (cell.ord = "reqFirst" /\ cell.ms = "active")
         /\ cell.shape # "std" => (cell.ts = "none" /\ cell.ord = "legitFirst")
-        /\ poll = None
+        \* the usage orders need an admitted mapping-id open before the change: the waiting tunnel
+        /\ cell.ord \in UsageOrders => (cell.ts = "waiting" /\ cell.shape = "std" /\ cell.ms # "active")
+        \* the prefix class is about the node-to-node hop, not about M's state
+        /\ cell.ts = "prefixRemote" => (cell.ord = "legitFirst" /\ cell.ms = "active" /\ cell.shape = "std")
+        /\ poll = None /\ uw = None /\ adm = "active" /\ br2 = NoBridge
         /\ pc = 1 /\ mst = "active" /\ br = NoBridge
         /\ ack = [w \in Who |-> "none"] /\ att = [w \in Who |-> "none"]
         /\ got = [w \in Who |-> FALSE] /\ ent = [w \in Who |-> FALSE]
         /\ opened = {} /\ dev = {} /\ hist = <<>>
 
 \* tunnel state the request meets (for the record handed to the driver and the judge's detail)
-Arrival(n) == IF br.node = None THEN "none"
-              ELSE IF br.node # n THEN "remote"
-              ELSE IF br.live # None \/ br.xn # None THEN "served" ELSE "waiting"
+Arrival(w, n) == LET b == Bof(w) IN
+                 IF b.node = None THEN "none"
+                 ELSE IF b.node # n THEN "remote"
+                 ELSE IF b.live # None \/ b.xn # None THEN "served" ELSE "waiting"
 
 Rec(w, n, via) == [op |-> "Open", who |-> w, node |-> n, id |-> Prof(w).id, cred |-> Prof(w).cred,
-                   ms |-> mst, ts |-> Arrival(n), via |-> via]
+                   ms |-> adm, ts |-> Arrival(w, n), tid |-> Tid(w), via |-> via]
 
 Done(w, n, via, a, at, e, d, b) ==
   /\ ack' = [ack EXCEPT ![w] = a] /\ att' = [att EXCEPT ![w] = at]
   /\ ent' = [ent EXCEPT ![w] = e] /\ opened' = opened \cup {w}
-  /\ dev' = dev \cup d /\ br' = b
+  /\ dev' = dev \cup d
+  /\ IF Tid(w) = "T" THEN br' = b /\ br2' = br2 ELSE br2' = b /\ br' = br
   /\ hist' = Append(hist, Rec(w, n, via) @@ [exp |-> [ack |-> a, att |-> at]])
-  /\ pc' = pc + 1 /\ UNCHANGED <<cell, mst, got>>
+  /\ pc' = pc + 1 /\ UNCHANGED <<cell, mst, adm, got>>
+  \* an admitted mapping-id request records the mapping's usage: read - set LastActive - write the
+  \* whole record back.  With a slow store the write is still pending when the open is over
+  \* (background write, MUT usageAsync) or the open itself is still in it (inflightUsage)
+  /\ uw' = IF w = "S" /\ a = "ok" /\ Prof(w).cred = "idOnly"
+                /\ (cell.ord = "inflightUsage" \/ (cell.ord = "slowUsage" /\ "usageAsync" \in MUT))
+            THEN mst ELSE uw
   /\ poll' = IF via = "NewBridge:TargetBridge:polling" THEN w ELSE poll
 
 \* --- the validation moved in front of the dispatch (patches/C04-1) refuses ------------------
 RefusedBeforeDispatch(w, n) ==
   /\ "validateJoin" \in FIXES /\ ~Validate(Prof(w))
-  /\ Done(w, n, "Refused", "fail", "none", Entitled(Prof(w), br.map), {}, br)
+  /\ Done(w, n, "Refused", "fail", "none", Entitled(Prof(w), Bof(w).map), {}, Bof(w))
 
 Pass(w) == "validateJoin" \in FIXES => Validate(Prof(w))
 
@@ -190,35 +232,47 @@ Pass(w) == "validateJoin" \in FIXES => Validate(Prof(w))
 \* as found: no control-connection lookup, no HandleTunnelOpen; success ack; SetTargetConnection
 \* (SetSourceConnection needs a transport that knows its client id - not a TCP-like one)
 ExistingBridge(w, n) ==
-  /\ Pass(w) /\ br.node = n
-  /\ LET p == Prof(w) e == Entitled(p, br.map) IN
-     IF "bindMapping" \in FIXES /\ Pres(p) # br.map
-       THEN Done(w, n, "ExistingBridge:otherMapping", "fail", "none", e, {}, br)
+  /\ Pass(w) /\ Bof(w).node = n
+  /\ LET p == Prof(w) b == Bof(w) e == Entitled(p, b.map) IN
+     IF "bindMapping" \in FIXES /\ Pres(p) # b.map
+       THEN Done(w, n, "ExistingBridge:otherMapping", "fail", "none", e, {}, b)
        ELSE Done(w, n, "ExistingBridge", "ok", "tgt", e,
                  IF e THEN {} ELSE {"existingBridgeNoCheck"},
                  \* SetTarget: the bridge's books name the newcomer; the copy loops keep the
                  \* forwarder they started with (first target that made the bridge ready)
-                 [br EXCEPT !.tgt = w, !.live = IF br.live = None /\ br.xn = None THEN w ELSE @])
+                 [b EXCEPT !.tgt = w, !.live = IF b.live = None /\ b.xn = None THEN w ELSE @])
 
 \* --- no local bridge, routing record of another node: handleCrossNodeTargetConnection --------
 \* as found: no validation; forwardToSourceNode acknowledges, dials the source node and
-\* announces TargetReady there (SetCrossNodeConnection + NotifyTargetReady + runBridgeForward)
+\* announces TargetReady there.  The frame header has room for 16 bytes of the tunnel id, the
+\* payload carries the full id: CrossNodeListener.handleTargetReady resolves the bridge by the
+\* full id (MUT headerFirst: by the header first - for T+ that is the bridge of T), then
+\* SetCrossNodeConnection + NotifyTargetReady + runBridgeForward on THAT bridge.
+HeaderHit(w) == "headerFirst" \in MUT /\ Tid(w) = "T+" /\ br.node = br2.node /\ br.node # None
 CrossNodeTarget(w, n) ==
-  /\ Pass(w) /\ br.node \notin {None, n}
-  /\ LET p == Prof(w) e == Entitled(p, br.map) IN
-     IF "bindMapping" \in FIXES /\ Pres(p) # br.map
-       THEN Done(w, n, "CrossNodeTarget:otherMapping", "fail", "none", e, {}, br)
-       ELSE Done(w, n, "CrossNodeTarget", "ok", "fwd", e,
-                 IF e THEN {} ELSE {"crossNodeNoCheck"},
-                 [br EXCEPT !.xn = w])          \* ForwardToSourceNode
+  /\ Pass(w) /\ Bof(w).node \notin {None, n}
+  /\ LET p == Prof(w) b == Bof(w) IN
+     IF "bindMapping" \in FIXES /\ Pres(p) # b.map
+       THEN Done(w, n, "CrossNodeTarget:otherMapping", "fail", "none", Entitled(p, b.map), {}, b)
+       ELSE IF HeaderHit(w)
+         THEN \* ForwardToSourceNode, attached to the bridge of the 16-byte prefix
+              /\ ack' = [ack EXCEPT ![w] = "ok"] /\ att' = [att EXCEPT ![w] = "fwd"]
+              /\ ent' = [ent EXCEPT ![w] = Entitled(p, br.map)] /\ opened' = opened \cup {w}
+              /\ dev' = dev \cup (IF Entitled(p, br.map) THEN {} ELSE {"headerBridgeLookup"})
+              /\ br' = [br EXCEPT !.xn = w] /\ br2' = br2
+              /\ hist' = Append(hist, Rec(w, n, "CrossNodeTarget:headerBridge") @@ [exp |-> [ack |-> "ok", att |-> "fwd"]])
+              /\ pc' = pc + 1 /\ UNCHANGED <<cell, mst, adm, got, uw, poll>>
+         ELSE Done(w, n, "CrossNodeTarget", "ok", "fwd", Entitled(p, b.map),
+                   IF Entitled(p, b.map) THEN {} ELSE {"crossNodeNoCheck"},
+                   [b EXCEPT !.xn = w])          \* ForwardToSourceNode
 
 \* --- neither: the only branch that validates in the tree as found ----------------------------
 NewBridge(w, n) ==
-  /\ br.node = None
+  /\ Bof(w).node = None
   /\ LET p == Prof(w) m == Pres(p) e == Entitled(p, None) IN
      IF ~Validate(p)
        THEN /\ "validateJoin" \notin FIXES        \* (with the patch this is RefusedBeforeDispatch)
-            /\ Done(w, n, "NewBridge:refused", "fail", "none", e, {}, br)
+            /\ Done(w, n, "NewBridge:refused", "fail", "none", e, {}, Bof(w))
        ELSE IF IsListen(p.id, m)                  \* isSourceClient
          THEN \* SourceBridge: startSourceBridge registers the bridge and the routing record; SetSource
               Done(w, n, "NewBridge:SourceBridge", "ok", "src", e,
@@ -228,14 +282,14 @@ NewBridge(w, n) ==
               \* polls for a record.  In the late classes one appears (PollFound); otherwise the
               \* lookup ends with an error after the success ack and nothing is attached
               Done(w, n, IF cell.ts \in Late /\ w = "R" THEN "NewBridge:TargetBridge:polling" ELSE "NewBridge:TargetBridge",
-                   "ok", "none", e, IF e THEN {} ELSE {"secretNoValidity"}, br)
+                   "ok", "none", e, IF e THEN {} ELSE {"secretNoValidity"}, Bof(w))
 
 Open == /\ Running /\ Step.op = "Open"
         /\ LET w == Step.who n == Step.node IN
            \* the legitimate target is told to connect only once a bridge exists
            IF w = "T" /\ br.node = None
              THEN /\ pc' = pc + 1 /\ hist' = Append(hist, [op |-> "Skip", who |-> w])
-                  /\ UNCHANGED <<cell, mst, br, ack, att, got, ent, opened, dev, poll>>
+                  /\ UNCHANGED <<cell, mst, adm, uw, br, br2, ack, att, got, ent, opened, dev, poll>>
              ELSE \/ RefusedBeforeDispatch(w, n)
                   \/ ExistingBridge(w, n)
                   \/ CrossNodeTarget(w, n)
@@ -267,38 +321,49 @@ Resolve ==
                                     ELSE [br EXCEPT !.xn = w]
               /\ hist' = Append(hist, ResolveRec(w, a))
   /\ poll' = None /\ pc' = pc + 1
-  /\ UNCHANGED <<cell, mst, ack, got, opened>>
+  /\ UNCHANGED <<cell, mst, adm, uw, br2, ack, got, opened>>
 
 \* the mapping reaches the state of the cell (revoked / expired / deactivated / deleted through
 \* the real services) - before the requester arrives
 SetMap == /\ Running /\ Step.op = "SetMap"
-          /\ mst' = cell.ms /\ pc' = pc + 1
+          /\ mst' = cell.ms /\ adm' = cell.ms /\ pc' = pc + 1
           /\ hist' = Append(hist, [op |-> "SetMap", ms |-> cell.ms])
-          /\ UNCHANGED <<cell, br, ack, att, got, ent, opened, dev, poll>>
+          /\ UNCHANGED <<cell, uw, br, br2, ack, att, got, ent, opened, dev, poll>>
 
-\* every attached end writes a marker; bytes of the source go to the cross-node forwarder if
-\* one is attached, else to the target the copy loops started with; bytes of that end go to the
-\* source.  A target that only replaced the books receives nothing.
-Route(v) == IF v = br.src THEN (IF br.xn # None THEN br.xn ELSE br.live)
-            ELSE IF v \in {br.live, br.xn} THEN br.src ELSE None
+\* the held RecordMappingUsage write lands: the copy read before the change goes back into the
+\* store (UpdatePortMapping writes the whole record).  Nothing pending: nothing happens.
+UsageLand == /\ Running /\ Step.op = "UsageLand"
+             /\ mst' = IF uw # None THEN uw ELSE mst
+             /\ dev' = dev \cup (IF uw # None /\ uw # mst THEN {"staleUsageWriteBack"} ELSE {})
+             /\ uw' = None /\ pc' = pc + 1
+             /\ hist' = Append(hist, [op |-> "UsageLand", exp |-> [valid |-> mst' = "active"]])
+             /\ UNCHANGED <<cell, adm, br, br2, ack, att, got, ent, opened, poll>>
+
+\* every attached end writes a marker; bytes of a bridge's source go to its cross-node forwarder
+\* if one is attached, else to the target its copy loops started with; bytes of that end go to
+\* the source.  A target that only replaced the books receives nothing.
+RouteIn(b, v) == IF b.node = None THEN None
+                 ELSE IF v = b.src THEN (IF b.xn # None THEN b.xn ELSE b.live)
+                 ELSE IF v \in {b.live, b.xn} THEN b.src ELSE None
 Out(b) == IF Emit THEN PrintT("BEH " \o ToJson(b)) ELSE TRUE
 Marker == /\ Running /\ Step.op = "Marker"
-          /\ LET g == [w \in Who |-> \E v \in Who \ {w} : att[v] # "none" /\ Route(v) = w] IN
+          /\ LET g == [w \in Who |-> \E v \in Who \ {w} : att[v] # "none" /\ (RouteIn(br, v) = w \/ RouteIn(br2, v) = w)] IN
              /\ got' = g /\ pc' = pc + 1
              /\ hist' = Append(hist, [op |-> "Marker", exp |-> g])
              /\ Out([cell |-> cell, steps |-> hist', dev |-> dev])
-          /\ UNCHANGED <<cell, mst, br, ack, att, ent, opened, dev, poll>>
+          /\ UNCHANGED <<cell, mst, adm, uw, br, br2, ack, att, ent, opened, dev, poll>>
 
-Next == Open \/ SetMap \/ Resolve \/ Marker
+Next == Open \/ SetMap \/ UsageLand \/ Resolve \/ Marker
 Spec == Init /\ [][Next]_vars
 
 \* ------------------------------------------------------------------------------------------
 \* the property
 TypeOK == /\ pc \in 1..(Len(Script(cell)) + 1)
           /\ \A w \in Who : ack[w] \in {"none", "ok", "fail"} /\ att[w] \in {"none", "src", "tgt", "fwd"}
-          /\ br.node \in {None, "A", "B"}
+          /\ br.node \in {None, "A", "B"} /\ br2.node \in {None, "A", "B"}
 
 Known == {"existingBridgeNoCheck", "crossNodeNoCheck", "secretNoValidity", "pollNoMappingCheck"}
+\* (staleUsageWriteBack / headerBridgeLookup only fire under MUT or the inflightUsage order: never masked)
 Mask  == Masked /\ dev \cap Known # {}
 
 \* attached (as source, as target, through another node) only if authenticated and entitled
